@@ -490,7 +490,7 @@ class Renderer:
             self.depth += 1
             opts = [("name", ("str", (("lit", s.name),))), ("start", ("num", s.start, None))]
             if s.pc is not None:
-                opts.append(("pc", ("num", s.pc, None)))
+                opts.append(("pc", ("ref", s.pc_def, None) if getattr(s, "pc_def", None) is not None else ("num", s.pc, None)))
             if not s.write:
                 opts.append(("write", ("num", 0, "false")))
             if s.bank:
